@@ -935,9 +935,17 @@ void hx_set_case_watchdog(unsigned seconds)
 	if (seconds) signal(SIGALRM, on_alarm);
 }
 
+static double last_stats_emit;
+static void emit_stats(bool final);
+
 void hx_case_begin(uint64_t idx)
 {
 	case_time_close();
+	{
+		double now = wall_now();
+		if (last_stats_emit == 0) last_stats_emit = now;
+		else if (now - last_stats_emit > 8.0) { last_stats_emit = now; if (hashfile) fflush(hashfile); emit_stats(false); }
+	}
 	if (case_watchdog_s) alarm(case_watchdog_s);
 	case_prev = idx; case_t0 = wall_now();
 	if (progress_fd >= 0) {
@@ -1020,12 +1028,12 @@ void visits_reset(void)
 	memset(lzma_verif_visit_counts, 0, sizeof(lzma_verif_visit_counts));
 }
 
-void hx_finish(void)
+// The stats line is cumulative. Besides the final one (hx_finish) a provisional one ("final":0) is written between
+// cases every few seconds, so that a process that is killed later (sanitizer abort, case watchdog on a loaded
+// machine) does not take the counters of the cases it had completed with it; the driver uses the last line only.
+static void emit_stats(bool final)
 {
-	case_time_close();
-	hx_max("slowest_case_ms", (uint64_t)(slow_s * 1000));
-	if (slow_s > 5.0) hx_note("slowest case %" PRIu64 " took %.1f s", slow_idx, slow_s);
-	fprintf(stdout, "{\"t\":\"stats\",\"evaluations\":%" PRIu64 ",\"distinct_nontrivial\":%zu,\"violations\":%" PRIu64 ",\"counters\":{", n_eval, dnt, n_viol);
+	fprintf(stdout, "{\"t\":\"stats\",\"final\":%d,\"evaluations\":%" PRIu64 ",\"distinct_nontrivial\":%zu,\"violations\":%" PRIu64 ",\"counters\":{", final ? 1 : 0, n_eval, dnt, n_viol);
 	for (size_t i = 0; i < ncounters; ++i) {
 		if (i) fputc(',', stdout);
 		json_str(stdout, counters[i].name);
@@ -1048,6 +1056,14 @@ void hx_finish(void)
 	}
 	fputs("]}\n", stdout);
 	fflush(stdout);
+}
+
+void hx_finish(void)
+{
+	case_time_close();
+	hx_max("slowest_case_ms", (uint64_t)(slow_s * 1000));
+	if (slow_s > 5.0) hx_note("slowest case %" PRIu64 " took %.1f s", slow_idx, slow_s);
+	emit_stats(true);
 	if (hashfile) fclose(hashfile);
 }
 
